@@ -2,7 +2,7 @@
    Model: coq/model/Mmr.v; specification: coq/spec/MmrSpec.v (path ls i = sibling digests from leaf i up to,
    excluding, its peak; mp_verify_spec = what verification has to decide). *)
 From Coq Require Import ZArith List Bool.
-From TF Require Import Word MmrIdxLocal Mmr MmrSpec MmrTerm MmrProofs MmrSmall MmrUpdates.
+From TF Require Import Word MmrIdxLocal Mmr MmrSpec MmrTerm MmrProofs MmrSmall MmrUpdates MmrBatch.
 Import ListNotations.
 Open Scope Z_scope.
 
@@ -46,10 +46,10 @@ Example C05_verify_example :
             [Node (Node (Atom 0) (Atom 1)) (Node (Atom 2) (Atom 3)); Atom 4] 5 = Some false.
 Proof. vm_compute. split; reflexivity. Qed.
 
-(* FULL statements of the update-routine theorems.  They are NOT proved yet (they need the node-index
-   theory of C16: post-order index <-> (block, height)); meanwhile the correspondence check compares every
-   routine with the model on histories AND the oracle checks the model's output against `path` / the exact
-   `modified` set after every operation (SPECDIFF). *)
+(* FULL statement for the append routines (update_from_append, batch_update_from_append): still open - they
+   use further index functions (node_indices_added_by_append, get_authentication_path_node_indices,
+   get_peak_heights_and_peak_node_indices); covered by the bounded theorem C05_update_from_append_small_partial,
+   by the correspondence on histories and by the oracle's SPECDIFF checks. *)
 Definition C05_update_from_append_full : Prop :=
   forall (D : Type) (H : D -> D -> D) (dflt : D) (ls : list D) (d : D) (i : Z),
     0 <= i < zlength ls -> zlength ls + 1 < 2 ^ 63 ->
@@ -78,21 +78,36 @@ Theorem C05_batch_update_from_leaf_mutation : forall (D : Type) (H : D -> D -> D
 Proof. exact batch_update_from_leaf_mutation_spec. Qed.
 Print Assumptions C05_batch_update_from_leaf_mutation.
 
-Definition C05_batch_mutate_full : Prop :=
-  forall (D : Type) (H : D -> D -> D) (deq : D -> D -> bool) (dflt : D),
-    (forall x y, deq x y = true <-> x = y) ->
-    forall (ls : list D) (idxs : list Z) (ms : list (Z * D)),
-      zlength ls < 2 ^ 63 -> Forall (fun i => 0 <= i < zlength ls) idxs ->
-      distinctb (map fst ms) = true -> Forall (fun m => 0 <= fst m < zlength ls) ms ->
-      exists modified,
-        batch_mutate_leaf_and_update_mps D H deq (zlength ls, peaks_spec D H dflt ls)
-          (map (path D H dflt ls) idxs) idxs (map (fun m => (fst m, snd m, path D H dflt ls (fst m))) ms) =
-        Some ((zlength ls, peaks_spec D H dflt (apply_muts D ls ms)),
-              map (path D H dflt (apply_muts D ls ms)) idxs, modified) /\
-        (* exactly the positions whose proof changed, ascending, without repeats *)
-        forall p, In p modified <->
-                  exists i, nth_error idxs (Z.to_nat p) = Some i /\ 0 <= p /\
-                            path D H dflt (apply_muts D ls ms) i <> path D H dflt ls i.
+(* the two batch-mutation routines, proved in general: for distinct in-range mutated leaves (proofs valid
+   prior to the batch, any order) and any tracked leaves (any order, repeats allowed), every tracked proof
+   becomes exactly the authentication path in the mutated list and the returned `modified` list is exactly
+   the list of positions whose proof changed, ascending and without repeats (md_spec, MmrUpdates.v);
+   batch_mutate_leaf_and_update_mps also yields the peaks built from scratch *)
+Theorem C05_batch_update_from_batch_leaf_mutation : forall (D : Type) (H : D -> D -> D) (deq : D -> D -> bool) (dflt : D),
+  (forall x y, deq x y = true <-> x = y) ->
+  forall (ls : list D), zlength ls < 2 ^ 63 ->
+  forall (ms : list (Z * D)) (idxs : list Z),
+    inrange D ls ms -> distinctb (map fst ms) = true -> Forall (fun i => 0 <= i < zlength ls) idxs ->
+    exists md,
+      batch_update_from_batch_leaf_mutation D H deq (map (path D H dflt ls) idxs) idxs (with_proofs D H dflt ls ms) =
+      Some (map (path D H dflt (apply_muts D ls ms)) idxs, md) /\
+      md_spec D H dflt ls (apply_muts D ls ms) 0 idxs md.
+Proof. exact bubm_spec. Qed.
+Print Assumptions C05_batch_update_from_batch_leaf_mutation.
+
+Theorem C05_batch_mutate_leaf_and_update_mps : forall (D : Type) (H : D -> D -> D) (deq : D -> D -> bool) (dflt : D),
+  (forall x y, deq x y = true <-> x = y) ->
+  forall (ls : list D), zlength ls < 2 ^ 63 ->
+  forall (ms : list (Z * D)) (idxs : list Z),
+    inrange D ls ms -> distinctb (map fst ms) = true -> Forall (fun i => 0 <= i < zlength ls) idxs ->
+    exists md,
+      batch_mutate_leaf_and_update_mps D H deq (zlength ls, peaks_spec D H dflt ls)
+        (map (path D H dflt ls) idxs) idxs (with_proofs D H dflt ls ms) =
+      Some ((zlength ls, peaks_spec D H dflt (apply_muts D ls ms)),
+            map (path D H dflt (apply_muts D ls ms)) idxs, md) /\
+      md_spec D H dflt ls (apply_muts D ls ms) 0 idxs md.
+Proof. exact bmlu_spec. Qed.
+Print Assumptions C05_batch_mutate_leaf_and_update_mps.
 
 (* PARTIAL stand-ins (bounded exhaustive, free hash with pairwise distinct leafs, by vm_compute; the checked
    predicates are in proofs/MmrSmall.v):
